@@ -157,7 +157,10 @@ func canonValue(rv reflect.Value) string {
 		return strconv.FormatFloat(rv.Float(), 'g', -1, 32)
 	case reflect.Float64:
 		return strconv.FormatFloat(rv.Float(), 'g', -1, 64)
-	case reflect.Struct:
+	case reflect.Struct, reflect.Map:
+		if rv.Kind() == reflect.Map && rv.IsNil() {
+			return "nil"
+		}
 		b, err := json.Marshal(rv.Interface())
 		if err != nil {
 			return "unmarshalable:" + err.Error()
